@@ -62,27 +62,23 @@ def generate(rng, tier, cls):
             faults.append({'kind': 'skew', 'file': 'f1', 'section': i,
                            'key': key, 'value': v, 'pos': rng.below(6)})
 
-    if rng.chance(0.15) and recs[0] is not None:
+    if rng.chance(0.3) and recs[0] is not None:
         # options the specification defines for *another* kind of section
         # (with a value that is valid there): unknown where they stand, so
         # carried through like any other and without effect on the content
-        elsewhere = {
-            'diff': [('indent', '1'), ('indent', '3'), ('format', 'json'),
-                     ('mimetype', 'text/plain'), ('version', '1.0')],
-            'meta': [('indent', '2'), ('type', 'text'),
-                     ('mimetype', 'text/markdown'), ('version', '1.0')],
-            'preamble': [('format', 'json'), ('type', 'binary'),
-                         ('version', '1.0')],
-            'change': [('indent', '4'), ('type', 'text'), ('format', 'json'),
-                       ('mimetype', 'text/plain'), ('version', '1.0')],
-            'file': [('indent', '0'), ('type', 'binary'), ('format', 'json'),
-                     ('mimetype', 'text/plain'), ('version', '1.0')],
-        }
+        elsewhere = ELSEWHERE
         i = rng.below(n)
+        diffs_at = [j for j in range(n) if recs[j]['type'] == 'diff']
+
+        if diffs_at and rng.chance(0.5):
+            i = rng.choice(diffs_at)
+
         cands = elsewhere.get(recs[i]['type'], [])
         have = recs[i]['options']
 
-        for key, v in rng.sample(cands, min(len(cands), rng.randint(1, 2))):
+        for key, v in (cands[:2] if recs[i]['type'] == 'diff' and
+                       rng.chance(0.5) else
+                       rng.sample(cands, min(len(cands), rng.randint(1, 2)))):
             if key not in have:
                 faults.append({'kind': 'skew', 'file': 'f1', 'section': i,
                                'key': key, 'value': v, 'pos': rng.below(6)})
@@ -100,6 +96,22 @@ def generate(rng, tier, cls):
     return {'actors': [prod], 'schedule': [], 'faults': faults,
             'block_size': bs, 'stream': gen.gen_stream(rng)[0],
             'stream_extras': gen.gen_stream_extras(rng)}
+
+
+# options the specification defines for another kind of section, with a
+# value that is valid there
+ELSEWHERE = {
+    'diff': [('indent', '1'), ('indent', '3'), ('format', 'json'),
+             ('mimetype', 'text/plain'), ('version', '1.0')],
+    'meta': [('indent', '2'), ('type', 'text'),
+             ('mimetype', 'text/markdown'), ('version', '1.0')],
+    'preamble': [('format', 'json'), ('type', 'binary'),
+                 ('version', '1.0')],
+    'change': [('indent', '4'), ('type', 'text'), ('format', 'json'),
+               ('mimetype', 'text/plain'), ('version', '1.0')],
+    'file': [('indent', '0'), ('type', 'binary'), ('format', 'json'),
+             ('mimetype', 'text/plain'), ('version', '1.0')],
+}
 
 
 def vclass(v):
@@ -171,7 +183,9 @@ def execute(scn, L):
 
         if not R.KEY_RE.match(key.encode('utf-8', 'replace')) or \
            not R.VAL_RE.match(v.encode('utf-8', 'replace')) or \
-           key in R.KNOWN_OPTION_KEYS or gen.int_corner(v) or \
+           (key in R.KNOWN_OPTION_KEYS and
+            (key, v) not in ELSEWHERE.get(ref[i]['type'], ())) or \
+           gen.int_corner(v) or \
            key in ref[i]['options'] or key in added.get(i, {}):
             continue
 
